@@ -203,6 +203,58 @@ pub fn run(cfg: &RunCfg, rep: &mut Report) {
                 }
             }
         }
+        // (a') the library's own way of evaluating the reported policy at a lock time and a sequence
+        // (at_lock_time / at_age keep exactly the locks that are met): what is left, with every
+        // remaining lock read as met, has to have the truth table of the policy in that world
+        if key_ids.len() + pre_ids.len() <= 10 {
+            for (lt, seq) in &tls {
+                // the filters know nothing about the transaction: a final sequence (nLockTime off) or a
+                // sequence without relative meaning has no counterpart there
+                let rel = match bitcoin::Sequence(*seq).to_relative_lock_time() {
+                    Some(r) if *seq != 0xffff_ffff => r,
+                    _ => continue,
+                };
+                let abs = bitcoin::absolute::LockTime::from_consensus(*lt);
+                let filtered = match guarded(std::panic::AssertUnwindSafe(|| desc.lift().map(|p| p.at_lock_time(abs).at_age(rel).to_string()))) {
+                    Ok(Ok(x)) => x,
+                    Ok(Err(_)) => continue,
+                    Err(m) => {
+                        rep.violation(i, format!("C07:panic:at_lock_time/at_age:{}", norm_loc(&last_panic_loc())), format!("{} on lift({})", m, case.desc));
+                        continue;
+                    }
+                };
+                let fpol = match parse_pol(&filtered, &lk) {
+                    Ok(p) => p,
+                    Err(_) => continue,
+                };
+                let mut bad = None;
+                'ff: for km in 0u64..(1 << key_ids.len()) {
+                    for pm in 0u64..(1 << pre_ids.len()) {
+                        let mut pw = PolWorld { keys: vec![false; world.keys.len()], pre: vec![false; world.pre.len()], lock_time: *lt, sequence: *seq };
+                        for (n, id) in key_ids.iter().enumerate() {
+                            pw.keys[*id] = km & (1 << n) != 0;
+                        }
+                        for (n, id) in pre_ids.iter().enumerate() {
+                            pw.pre[*id] = pm & (1 << n) != 0;
+                        }
+                        let sg = pw.sigma();
+                        let locks_met = |a: &Atom| matches!(a, Atom::After(_) | Atom::Older(_)) || sg(a);
+                        if fpol.eval(&locks_met) != pol.eval(&sg) {
+                            bad = Some((km, pm));
+                            break 'ff;
+                        }
+                    }
+                }
+                match bad {
+                    Some((km, pm)) => rep.violation(
+                        i,
+                        "C07:policy-at-locktime-and-age-differs".into(),
+                        format!("lift({}) = {} ; at nLockTime {} and nSequence {:#x} the library reduces it to {}, which differs from the policy's value in that world for key mask {:#x} / preimage mask {:#x}", case.desc, lifted, lt, seq, filtered, km, pm),
+                    ),
+                    None => rep.count("at_lock_time+at_age agree with the policy's value in the world"),
+                }
+            }
+        }
         let kms = subsets(&mut rng, key_ids.len(), 5, 16);
         let pms = subsets(&mut rng, pre_ids.len(), 2, 4);
         let mut combos = vec![];
